@@ -7,12 +7,18 @@ from .C09 import brute, impl_loops, loops_precondition
 from lapy import TriaMesh
 
 
+FSINFO = {"head": np.array([2, 0, 20], dtype=np.int32), "valid": "1  # volume info valid", "filename": "../mri/filled.mgz", "volume": np.array([256, 256, 256]),
+          "voxelsize": np.array([1.0, 1.0, 1.0]), "xras": np.array([-1.0, 0.0, 0.0]), "yras": np.array([0.0, 0.0, -1.0]), "zras": np.array([0.0, 1.0, 0.0]),
+          "cras": np.array([0.5, -3.0, 2.0])}
+WITH_HEADER = {"on": False}           # refine a mesh that carries a FreeSurfer header dictionary (geometry and topology do not depend on it)
+
+
 def impl_refine(v, t, it, vdtype=None, pres=None):
     if pres:
         v, t = gen.present(v, t, pres)
     if vdtype is not None:
         v = np.asarray(v).astype(vdtype)
-    m = TriaMesh(v, t)
+    m = TriaMesh(v, t, fsinfo=dict(FSINFO)) if WITH_HEADER["on"] else TriaMesh(v, t)
     m.refine_(it)
     return np.array(m.v, dtype=np.float64), np.array(m.t, dtype=np.int64), m
 
@@ -72,8 +78,10 @@ class Check(BaseCheck):
 
     def correspond(self, drv, stats):
         fails = []
-        for c in self.cases():
+        for kc, c in enumerate(self.cases()):
             v, t, it = c["v"], c["t"], c["it"]
+            WITH_HEADER["on"] = bool(c.get("fsinfo", gen.rng_for(self.seed, "c11-header", kc).random() < 0.3))
+            c["fsinfo"] = WITH_HEADER["on"]
             res = core.call(impl_refine, v, t, it, c.get("vdtype"), c.get("pres"))
             r = wire.Reply(drv.ask("refine %d %s %s" % (it, wire.verts(v), wire.elems(t))))
             stats.case(core.mesh_key(v, t, it), cls=["class:" + c["name"], "it:%d" % it], sample=dict(name=c["name"], nv=len(v), nt=len(t), it=it))
@@ -97,6 +105,7 @@ class Check(BaseCheck):
 
     def oracle(self, case):
         v = np.asarray(case["v"], float); t = np.asarray(case["t"], dtype=np.int64); it = int(case["it"])
+        WITH_HEADER["on"] = bool(case.get("fsinfo", False))
         if len({frozenset(int(x) for x in tr) for tr in t}) < len(t):
             case = dict(case, input_class="duplicate-vertex-set")      # two triangles on the same three vertices (finding F14)
         res = core.call(impl_refine, v, t, it, case.get("vdtype"), case.get("pres"))
